@@ -360,8 +360,9 @@ fn run_blocking(inst: &Instance, hist: &[Act], inner: Arc<Mutex<Inner>>) -> RunR
                 out.finished = true;
                 break;
             }
-            if out.results.len() > 10_000 {
-                out.harness_error = Some("read loop does not terminate".into());
+            // a connection that keeps returning results without asking the transport again has
+            // produced more results than any history can justify: stop and let the oracle judge
+            if out.results.len() > inst.frames.len() + hist.len() + 2 {
                 break;
             }
         },
@@ -470,8 +471,7 @@ fn run_tokio(inst: &Instance, hist: &[Act], inner: Arc<Mutex<Inner>>) -> RunResu
                     out.finished = true;
                     break 'calls;
                 }
-                if out.results.len() > 10_000 {
-                    out.harness_error = Some("call loop does not terminate".into());
+                if out.results.len() > inst.frames.len() + writes.len() + hist.len() + 2 {
                     break 'calls;
                 }
             },
